@@ -56,6 +56,19 @@ CHECKS.update({
    note="Trusted: TLC; the scratch file system layout written by the harness (outside /repo and /verif, removed afterwards). Exhaustive within the tier's directory tree, hop bound and spelling styles.",
    tech="TLA+ resolution spec, TLC-enumerated layouts executed on the real file system, TLC-judged"),
 })
+SCOPE_NOTE = ("Trusted: TLC; Scoping.tla as the statement of Nix lexical scoping (DESIGN.md appendix D; no Nix evaluator offline); "
+              "harness/project.py chain_of() as independent reader. Exhaustive for chains of <= 2 frames, 25k-sample (quick) / all 266k "
+              "(thorough) chains of 3 frames over let / rec / plain set / with, two names, literal / reference / inherit bindings. "
+              "Formal parameters and the registry half (address reuse) are covered by the C15 engine's Registry model.")
+CHECKS.update({
+ "C10": dict(engine="scoping", cat="model_checking", ref="DESIGN.md §7 C10",
+   text="Scoping.tla defines Resolve (lexical frames innermost first, then with-environments, inherit followed outward, cycles and unbound names are errors); TLC proves LetBeatsWith / InnermostWins / PlainSetsInvisible / totality on every chain of the model, each chain is rendered, traversed through the real mapping API to the reference, and TLC (Scoping_Trace) compares Identifier.value (value or ResolutionError, under a time limit) with Resolve.",
+   note=SCOPE_NOTE, tech="TLA+ scoping semantics (TLC-checked theorems) + TLC-judged real resolutions"),
+ "C11": dict(engine="scoping", cat="model_checking", ref="DESIGN.md §7 C11",
+   text="DefSite (end of the chain of references under Resolve) is the one binding an edit through a reference may change; for every editable chain the real set_value and Identifier.value assignment are executed, the changed bindings are read back by the independent chain reader, and TLC (Scoping_Trace) requires changed = {DefSite} with the reference left in place, or the path's own binding overwritten when the name is bound nowhere.",
+   note=SCOPE_NOTE + " Readings: cycles prescribe nothing; a chain ending in a dangling reference may also overwrite the path's binding; assignment through an unresolvable identifier may raise ResolutionError.",
+   tech="TLA+ scoping semantics + TLC-judged real edits through references"),
+})
 import os
 built = {p: m for p, m in CHECKS.items()}
 checks = []
@@ -89,6 +102,8 @@ man = {
     "kind_free_text": "spec/Cli.tla -> real main()/subprocess invocations, chains with redirect -> spec/Cli_Trace.tla"},
    {"name": "imports", "path": "harness/engines/imports.py", "serves_properties": ["C17"],
     "kind_free_text": "spec/Imports.tla (layouts, spellings, Target) -> real parse_file/import lookups on a scratch tree -> spec/Imports_Trace.tla"},
+   {"name": "scoping", "path": "harness/engines/scoping.py", "serves_properties": ["C10", "C11"],
+    "kind_free_text": "spec/Scoping.tla + MC_Scoping (all chains) -> real traversal / Identifier.value / set through reference -> spec/Scoping_Trace.tla"},
  ],
  "checks": checks,
  "notes": "All checks: ./check <ID> [--tier quick|thorough]; VERIF_SEED / VERIF_TIER honoured. Known findings: known_findings.json. See DESIGN.md.",
